@@ -212,8 +212,8 @@ void scen_c05(mt_case * c) {
   mt_hash(c->prog.p, c->prog.pos);
 
   mt_lib_start(c, &e, 0);
-  Z0(myth_mutex_init(&g_m, 0));
-  for (int i = 0; i < ncv; i++) Z0(myth_cond_init(&g_cv[i].cv, 0));
+  MT_DIRTY(g_m); Z0(myth_mutex_init(&g_m, 0));
+  for (int i = 0; i < ncv; i++) { MT_DIRTY(g_cv[i].cv); Z0(myth_cond_init(&g_cv[i].cv, 0)); }
 
   /* signals with no waiter must have no effect */
   m_lock();
